@@ -394,6 +394,22 @@ def resolve(path: Path, keep=()) -> Path:
                     else:
                         lst.elts.append(ast.Starred(value=a, ctx=ast.Load()))
                     folded = True
+            # dict building:  d = dict(A) / A.copy() / {**A} / {} ; d.update(B)   is   {**A, **B}
+            if not folded and isinstance(e, ast.Call) and isinstance(e.func, ast.Attribute) and e.func.attr == "update" and isinstance(e.func.value, ast.Name) and e.func.value.id in env and len(e.args) == 1 and not e.keywords:
+                cur = env[e.func.value.id]
+                base = None
+                if isinstance(cur, ast.Dict) and all(k_ is None for k_ in cur.keys):
+                    base = cur
+                elif isinstance(cur, ast.Call) and norm(cur.func) == "dict" and len(cur.args) == 1 and not cur.keywords:
+                    base = ast.Dict(keys=[None], values=[cur.args[0]])
+                elif isinstance(cur, ast.Call) and isinstance(cur.func, ast.Attribute) and cur.func.attr == "copy" and not cur.args:
+                    base = ast.Dict(keys=[None], values=[cur.func.value])
+                if base is not None:
+                    a = S().visit(copy.deepcopy(e.args[0]))
+                    base.keys.append(None)
+                    base.values.append(a)
+                    env[e.func.value.id] = base
+                    folded = True
             if not folded:
                 out.append(("do", sub(ev[1])))
         elif k in ("yield", "yieldfrom", "return", "raise", "with"):
